@@ -65,6 +65,7 @@ type spec struct {
 	explicitCL       bool
 	h2style          bool // undeclared request length without chunked transfer-encoding (HTTP/2, direct calls)
 	verbose          bool // buffer.Verbose(true) with a formatting logger
+	formCT           bool // the request declares Content-Type: application/x-www-form-urlencoded
 	copyMode         bool // the handler streams its body with io.Copy from a plain reader
 	abort            bool // the handler panics (http.ErrAbortHandler) after writing
 }
@@ -92,7 +93,8 @@ func pick(t *rapid.T, label string, thr int64) int64 {
 
 func genSpec(t *rapid.T) *spec {
 	s := &spec{}
-	s.method = rapid.SampledFrom([]string{"GET", "POST", "POST", "HEAD"}).Draw(t, "method")
+	s.method = rapid.SampledFrom([]string{"GET", "POST", "POST", "HEAD", "PUT", "PATCH"}).Draw(t, "method")
+	s.formCT = rapid.IntRange(0, 2).Draw(t, "formContentType") == 0
 	s.memReq = rapid.SampledFrom([]int64{1, 16, 512, 4096}).Draw(t, "memReq")
 	switch rapid.IntRange(0, 4).Draw(t, "maxReqKind") {
 	case 0:
@@ -170,7 +172,7 @@ func genSpec(t *rapid.T) *spec {
 }
 
 func (s *spec) String() string {
-	return fmt.Sprintf("%s reqBody=%d chunked=%v memReq=%d maxReq=%d | memResp=%d maxResp=%d status=%d writes=%v retry=%q failFirst=%d explicitCL=%v copyMode=%v abort=%v h2style=%v verbose=%v", s.method, s.reqBody, s.chunked, s.memReq, s.maxReq, s.memResp, s.maxResp, s.status, s.writes, s.retry, s.failFirst, s.explicitCL, s.copyMode, s.abort, s.h2style, s.verbose)
+	return fmt.Sprintf("%s reqBody=%d chunked=%v memReq=%d maxReq=%d | memResp=%d maxResp=%d status=%d writes=%v retry=%q failFirst=%d explicitCL=%v copyMode=%v abort=%v h2style=%v verbose=%v formCT=%v", s.method, s.reqBody, s.chunked, s.memReq, s.maxReq, s.memResp, s.maxResp, s.status, s.writes, s.retry, s.failFirst, s.explicitCL, s.copyMode, s.abort, s.h2style, s.verbose, s.formCT)
 }
 
 // formatLogger formats its arguments like a real logger.
@@ -266,6 +268,9 @@ func TestC15_LimitsAndTempFiles(t *testing.T) {
 			t.Fatalf("buffer.New: %v (%s)", err, s)
 		}
 		req := httptest.NewRequest(s.method, "http://front/x", onlyReader{bytes.NewReader(reqBody)})
+		if s.formCT {
+			req.Header.Set("Content-Type", "application/x-www-form-urlencoded")
+		}
 		if s.chunked {
 			req.ContentLength = -1
 			req.TransferEncoding = []string{"chunked"}
